@@ -145,6 +145,7 @@ func stackNow() string {
 
 // execOne runs one operation against store/collection getter and fills ev.
 func (c *conRun) execOne(store *gkvlite.Store, op ConOp, ev *Ev) {
+	c.s.SetOp(op.Kind, op.WV)
 	coll := func() *gkvlite.Collection { return store.GetCollection(op.C) }
 	switch op.Kind {
 	case "setitem":
@@ -319,6 +320,9 @@ func RunCon(plan *Plan, cp *ConPlan, prop string) (*RunResult, *conRun) {
 	resetGlobals(plan.Seed)
 	w := NewWorld(prop)
 	p := Profiles()["CON"]
+	if prop == "C19" {
+		p.CheckReads = true
+	}
 	applyProfile(w, p)
 	w.PanicsAlways = true
 	res := &RunResult{Plan: plan, World: w}
@@ -358,6 +362,9 @@ func RunCon(plan *Plan, cp *ConPlan, prop string) (*RunResult, *conRun) {
 	c := &conRun{w: w, s: s, h: h, prop: prop, tasks: cp.Tasks}
 	w.Yield = s.Yield
 	w.Env.Yield = s.Yield
+	if prop == "C19" {
+		w.OpOf = s.OpOf
+	}
 	gkvlite.VerifYield = func(site int) { s.Yield("hook-" + gkvlite.VerifSiteNames[site]) }
 	defer func() { gkvlite.VerifYield = nil; w.Yield = nil; w.Env.Yield = nil }()
 	for ti := range cp.Tasks {
@@ -375,6 +382,9 @@ func RunCon(plan *Plan, cp *ConPlan, prop string) (*RunResult, *conRun) {
 					ev.Img = append([]byte(nil), d.Image()...)
 					if rec := FindLastRoot(ev.Img, int64(len(ev.Img))); rec != nil {
 						ev.End = rec.End
+						if w.CheckReads {
+							w.indexValueRanges(h.Disk, rec.End)
+						}
 					}
 				}
 				if op.Kind != "snapshot" {
